@@ -83,7 +83,11 @@ class RealRays(BaseRays):
         self.z += t * self.N
 
         if material is not None:
-            k = material.k(self.w)
+            try:
+                k = material.k(self.w)
+            except ValueError:
+                # catalogue entry without extinction data: lossless
+                k = 0.0
             alpha = 4 * np.pi * k / self.w
             # a blocked ray stays blocked and a ray that does not reach the
             # surface (t is not finite) carries no energy there; without
